@@ -188,7 +188,7 @@ def tlc_trace_states(out):
 # ----------------------------------------------------------------------------------------------
 # isolated replay of cases in a harness binary
 # ----------------------------------------------------------------------------------------------
-def _run_shard(binary, path, n, tmo, env, wrapper=None):
+def _run_shard(binary, path, n, tmo, env, wrapper=None, max_abnormal=None):
     """run cases 0..n-1 of ndjson file `path`; restart after abnormal termination. returns list of result dicts"""
     results = [None] * n
     start = 0
@@ -235,10 +235,15 @@ def _run_shard(binary, path, n, tmo, env, wrapper=None):
         results[cur] = {"ok": None, "outcome": oc, "stderr": msg}
         start = cur + 1
         restarts += 1
+        if max_abnormal is not None and restarts >= max_abnormal:
+            # a broken tree can make thousands of cases abort or hang: enough evidence, do not run the rest of this shard
+            for k in range(start, n):
+                results[k] = {"ok": None, "skip": True, "outcome": "not_run"}
+            break
     return results
 
 
-def run_cases(binary, cases, tmo=20, shards=None, env=None, keep=None, wrapper=None):
+def run_cases(binary, cases, tmo=20, shards=None, env=None, keep=None, wrapper=None, max_abnormal=None):
     """replay `cases` (list of JSON-able objects) through harness `binary` in parallel shards.
     returns list of results aligned with cases; result['outcome'] is set for abnormal ends."""
     if not cases:
@@ -268,7 +273,7 @@ def run_cases(binary, cases, tmo=20, shards=None, env=None, keep=None, wrapper=N
     out = []
     try:
         with cf.ThreadPoolExecutor(max_workers=len(chunks)) as ex:
-            futs = [ex.submit(_run_shard, binary, path, n, tmo, e, wrapper) for path, n in chunks]
+            futs = [ex.submit(_run_shard, binary, path, n, tmo, e, wrapper, max_abnormal) for path, n in chunks]
             for f in futs:
                 out.extend(f.result())
     finally:
